@@ -199,13 +199,13 @@ pub fn run(ctx: &Ctx, rep: &mut Report) {
                         cl.mint_from(&m, &a2, &1000);
                         cl.mint_from(&m, &p2, &1000);
                         cl.approve(&a2, &b2, &300, &exp);
-                        // an allowance to the account that shares its 32 bytes with the contract
-                        // address c: it is not c's
-                        cl.approve(&a2, &c_twin, &300, &exp);
                         // an approval with a lifetime beyond what the ledger can hold (refused today),
                         // then its revocation: c has no allowance
                         let _ = cl.try_approve(&a2, &c2, &1000, &u32::MAX);
                         cl.approve(&a2, &c2, &0, &0);
+                        // (afterwards) an allowance to the account that shares its 32 bytes with the
+                        // contract address c: it is not c's
+                        cl.approve(&a2, &c_twin, &300, &exp);
                         cl.add_minter(&p2);
                     });
                 }
